@@ -60,6 +60,12 @@ def handle (line : String) : String :=
       let l := UInt8.ofNat last
       toHex (encHead cfg k seq len l) ++ " " ++ (if k = .full then "-" else toHex (encTail cfg crc32 k rnd [] l))
     | _, _, _, _, _ => "bad-op"
+  | ["rdhdr", k, h] =>
+    match Kind.ofTag k, ofHex h with
+    | some k, some s => match readHeader cfg k s with
+      | .ok rest => s!"ok {rest.length}"
+      | .error e => "err " ++ e.tag
+    | _, _ => "bad-op"
   | ["detect", h] =>
     match ofHex h with
     | some s => match detect cfg s with
